@@ -841,49 +841,107 @@ class HistRun(object):
 
     # ---- composite arrays
     def _kwargs(self, et, a, bad):
-        """keyword arguments for add(): names of scalar-like members of the element struct"""
-        if et.cat != "struct":
-            return {}, False
-        cands = [m for m in et.members if not m.sizes and not m.arr and not m.opt and m.type.cat in ("scalar", "enum")]
+        """keyword arguments for add(): -> (kwargs, apply(elem) that mirrors them on a reference element or raises
+        Reject, rejected flag). Members: scalars and enums, bytes, scalar arrays (add() assigns attr[:] = value),
+        optional scalars; for unions the discriminator (and then the arm)."""
         kw = {}
-        rejected = False
+        plan = []          # (name, kind, member / arm)
+        if et.cat == "union":
+            if a[1] % 3 == 0:
+                return {}, (lambda elem: None), False
+            name, at, disc = et.arms[a[2] % len(et.arms)]
+            kw["discriminator"] = name if a[0] % 2 else disc
+            val = None
+            if at.cat in ("scalar", "enum") and a[1] % 3 == 2:
+                val = gv.scalar_invalid(at, a[3]) if bad == 1 else gv.scalar_valid(at, a[0])
+                kw[name] = val
+            elif bad == 1:
+                kw["discriminator"] = "nope"
+            if bad == 2:
+                kw["nope"] = 1
+
+            def apply(elem):
+                if kw["discriminator"] == "nope":
+                    raise Reject("value")
+                if elem["@arm"] != name:
+                    elem["@arm"], elem["v"] = name, mm.default_value(at)
+                if name in kw:
+                    elem["v"] = mm.check_scalar(at, kw[name])
+                if "nope" in kw:
+                    raise Reject("attr")
+            return kw, apply, (bad == 1) or ("attr" if bad == 2 else False)
+        cands = [m for m in et.members if not m.sizes and
+                 ((not m.arr and m.type.cat in ("scalar", "enum")) or m.is_bytes or
+                  (m.arr and m.type.cat in ("scalar", "enum")))]
         n = a[1] % 3
+        chosen = []
         for j in range(min(n, len(cands))):
             m = cands[(a[2] + j) % len(cands)]
-            kw[m.name] = gv.scalar_valid(m.type, a[0] + j)
-        if bad == 1 and kw:
-            # the *last* keyword gets an invalid value: everything before it is valid
-            name = list(kw)[-1]
-            m = et.by_name[name]
-            kw[name] = gv.scalar_invalid(m.type, a[3])
+            if m.name in kw:
+                continue
+            if m.is_bytes:
+                kw[m.name] = gv.bytes_valid(m, a[0] + j)
+            elif m.arr:
+                ln = m.n if m.arr == "fixed" else (a[0] + j) % ((m.n if m.arr == "limited" else 3) + 1)
+                kw[m.name] = [gv.scalar_valid(m.type, a[0] + j + q) for q in range(ln)]
+            else:
+                kw[m.name] = gv.scalar_valid(m.type, a[0] + j)
+            chosen.append(m)
+        rejected = False
+        if bad == 1 and chosen:
+            m = chosen[-1]      # the *last* keyword gets an invalid value: everything before it is valid
+            if m.is_bytes:
+                kw[m.name] = gv.bytes_invalid(m, a[3])
+            elif m.arr:
+                if m.arr in ("fixed", "limited") and a[3] % 2:
+                    kw[m.name] = [gv.scalar_valid(m.type, q) for q in range(m.n + 1)]
+                else:
+                    kw[m.name] = list(kw[m.name][:1]) + [gv.scalar_invalid(m.type, a[3])] if m.arr != "fixed" else \
+                        [gv.scalar_invalid(m.type, a[3])] * m.n
+            else:
+                v = gv.scalar_invalid(m.type, a[3])
+                if m.opt and v is None:
+                    v = "x" if m.type.cat != "enum" else "nope"
+                kw[m.name] = v
             rejected = True
         elif bad == 2:
             kw["nope"] = 1
             rejected = "attr"
-        return kw, rejected
+
+        def apply(elem):
+            for m in chosen:
+                v = kw[m.name]
+                if m.is_bytes:
+                    elem[m.name] = mm.check_bytes(m, v)
+                elif m.arr:
+                    mm.arr_setslice(m, elem[m.name], slice(None, None), list(v))
+                else:
+                    elem[m.name] = mm.check_scalar(m.type, v)
+            if "nope" in kw:
+                raise Reject("attr")
+        return kw, apply, rejected
 
     def op_carr_add(self, tg, a):
         m, ref = tg.m, tg.pref
         arr = getattr(tg.pobj, m.name)
         bad = [0, 0, 0, 1, 2][a[3] % 5]
-        kw, rejected = self._kwargs(m.type, a, bad)
+        kw, apply_kw, rejected = self._kwargs(m.type, a, bad)
         if bad and not rejected:
             bad = 0
 
         def rf():
             if m.arr == "limited" and len(ref[m.name]) >= m.n:
                 raise Reject("value", "limit")
-            if rejected == "attr":
-                raise Reject("attr")
             elem = mm.default_value(m.type)
-            for k, v in kw.items():
-                elem[k] = mm.check_scalar(m.type.by_name[k].type, v)
+            apply_kw(elem)
             ref[m.name].append(elem)
         key = "add/" + m.kind + ["", "/invalid-kw-value", "/unknown-kw"][bad]
         if m.arr == "limited" and len(ref[m.name]) >= m.n:
             self.probe("limited_full_add")
             if rejected == "attr":
                 return None   # two reasons to reject: which exception wins is not specified
+        if any(isinstance(v, list) for v in kw.values()):
+            self.probe("add_with_array_keyword")
         return ("%s.add(%s)" % (tg.desc, ", ".join("%s=%r" % kv for kv in kw.items())), lambda: arr.add(**kw), rf, key)
 
     def op_carr_extend(self, tg, a):
